@@ -475,6 +475,7 @@ pub fn run(args: &Args, rec: &mut Recorder) {
     let g = Grammar::load_default();
     let total: u64 = if args.thorough { 300_000 } else { 12_000 };
     let n_edits = if args.thorough { 5 } else { 3 };
+    let scratch = crate::c03::scratch_dir(args);
     run_cases(args, rec, total, crate::util::reset_budget, |rng, case, rec| {
         let cfg = c05_gen_cfg(rng, args.thorough);
         let mut gen = DocGen::new(&g, cfg);
@@ -499,7 +500,25 @@ pub fn run(args: &Args, rec: &mut Recorder) {
         if rec.want_sample() && case % 101 == 7 {
             rec.sample(Json::obj().with("mode", Json::s(if canonical { "canonical" } else { "c05" })).with("text", Json::s(&clip(&r.text, 500))));
         }
-        let (a2l, _log) = match load_str(&r.text, false) {
+        // one document in five is loaded from a file (plain UTF-8 or with a byte order mark, which
+        // is not part of the text): the lines are the lines of the file
+        let from_file = case % 5 == 2;
+        let loaded = if from_file {
+            let enc = *rng.pick(&["utf8", "utf8-bom", "utf8-bom", "utf16le-bom", "utf16be-bom", "utf32le-bom"]);
+            rec.bump(&format!("entry.file.{enc}"));
+            if enc != "utf8" && r.lines.first().copied().unwrap_or(1) > 1 {
+                rec.bump("entry.file.bom_and_leading_blank_lines");
+            }
+            let p = scratch.join("c05.a2l");
+            std::fs::write(&p, crate::c17::encode(&r.text, enc)).unwrap();
+            crate::util::set_budget(crate::c03::step_budget(r.text.len() * 4));
+            let res = vcommon::runtime::guarded(|| a2lfile::load(&p, None, false));
+            crate::util::reset_budget();
+            res
+        } else {
+            load_str(&r.text, false)
+        };
+        let (a2l, _log) = match loaded {
             Err((sig, detail)) => {
                 rec.violation(&sig, &detail, witness_text("C05", &r.text, ""));
                 return None;
@@ -576,7 +595,9 @@ pub fn run(args: &Args, rec: &mut Recorder) {
         }
         None
     });
+    let _ = std::fs::remove_dir_all(&scratch);
     rec.floor("accepted", 10);
+    rec.floor("entry.file.bom_and_leading_blank_lines", 3);
     rec.floor("mode.canonical", 5);
     rec.floor("mode.c05", 5);
     rec.floor("edit.field_edit", 5);
